@@ -118,6 +118,28 @@ def scrubbers_stop_at_sentence_end(ctx):
     ctx.floor('spelling x separator cases for the base scrubbers', n, 20)
 
 
+def scrub_runs_every_stage(ctx):
+    """scrub_aliquots returns only after half_plus_q and the intervener remover
+    have run: text that is ALREADY written with ½ / ¼ (so that no scrubber
+    changes it) still has its 'of' / 'of the' / blanks between components, and
+    an early return for "nothing changed" leaves such a chain unjoined - it
+    then parses as separate aliquots, unlike the same chain in any other
+    spelling."""
+    from .forward import _dominates
+    fi = ctx.repo.func('tract_preprocess:scrub_aliquots')
+    stages = [c for c in walk_local(fi.node) if isinstance(c, ast.Call)
+              and (dotted(c.func) or '').split('.')[-1] in ('remove_aliquot_interveners', 'half_plus_q_scrubber')]
+    if not stages:
+        ctx.undecided('ORDER', 'scrub_aliquots runs every stage before it returns', 'stage calls not found')
+        return
+    for c in stages:
+        early = [r for r in walk_local(fi.node) if isinstance(r, ast.Return) and r.lineno < c.lineno and not _dominates(c, r, fi.node)]
+        ctx.check(not early, 'ORDER', f"scrub_aliquots: no return in front of {dotted(c.func)}()",
+                  detail_bad=f"the `return` at line {early[0].lineno if early else 0} leaves scrub_aliquots before `{norm(c)[:40]}` ran: a chain "
+                             f"that is already in ½ / ¼ symbols ('N½ of the NE¼') keeps its joiners and is read as two aliquots",
+                  key=f"ORDER|scrub_aliquots|early-return|{dotted(c.func)}", where=common.loc(fi, early[0]) if early else None)
+
+
 def lookahead_covers_spellings(ctx):
     """The aliquot scrubbers end in the look-ahead `aqwb_lkahead` ("what
     follows is the start of another aliquot, a separator or the end").  Two
@@ -212,6 +234,7 @@ def check(ctx):
     ctx.attempt(_cut_length_from_match)
     ctx.attempt(lookahead_covers_spellings)
     ctx.attempt(scrubbers_stop_at_sentence_end)
+    ctx.attempt(scrub_runs_every_stage)
 
 
 def _tables(ctx, base):
